@@ -105,7 +105,7 @@ CHECKS = {
                   'all strings to length 4/5 over a 20-character matcher alphabet, and of command words x arguments x '
                   'session states, each executed on the real code with a totality oracle',
         text='Every input within the bounds is run: logs must be consumed with every opened connection closed and nothing '
-             'but SystemExit leaving the entry points (5 s alarm); every matcher string is accepted or rejected with a '
+             'but SystemExit leaving the entry points (20 s alarm); every matcher string is accepted or rejected with a '
              'diagnostic and accepted ones are simplified, printed and evaluated on diverse messages; every command line '
              'produces output or an error line and leaves the session usable. A slice runs the real CLI under C and C.utf8.',
         ref='3/C18', engine='PROD'),
